@@ -284,17 +284,49 @@ fn run_backend(args: &Args) {
     };
     let sealed_check = args.flags.iter().any(|f| f == "--sealed-check");
     let kinds_len = kinds.len();
+    let crash = args.flags.iter().any(|f| f == "--crash");
+    let kinds: Vec<backend::Kind> = if crash { kinds.into_iter().filter(|k| *k != backend::Kind::Http).collect() } else { kinds };
+    let kinds_len = kinds.len();
     let mut rng = Rng::new(args.seed);
-    for i in 0..args.cases {
-        let mut crng = rng.fork();
-        let kind = kinds[i % kinds.len()];
-        // git is slow (every call forks git several times): shorter cases
-        let len = match kind {
-            backend::Kind::GitLocal | backend::Kind::GitRemote => 4 + crng.below(args.max_len as u64 / 4 + 1) as usize,
-            _ => 5 + crng.below(args.max_len as u64) as usize,
-        };
-        let nh = 1 + crng.below(3) as usize;
-        let hdr = format!("# case {} seed={} backend={} handles={}", i, args.seed, kind.name(), nh);
+    // (header, kind, handles, recorded lines)
+    let mut cases: Vec<(String, backend::Kind, usize, Option<Vec<String>>, Rng, usize)> = Vec::new();
+    let mut files: Vec<PathBuf> = Vec::new();
+    if let Some(r) = &args.replay {
+        files.push(r.clone());
+    } else if let Some(c) = &args.corpus {
+        if let Ok(rd) = std::fs::read_dir(c) {
+            let mut fs: Vec<PathBuf> = rd.filter_map(|e| e.ok().map(|e| e.path())).collect();
+            fs.sort();
+            files.extend(fs);
+        }
+    }
+    for f in &files {
+        for (ci, (h, lines)) in read_cases(f).into_iter().enumerate() {
+            let name = f.file_name().unwrap().to_string_lossy().to_string();
+            let get = |key: &str| h.split_whitespace().find_map(|w| w.strip_prefix(key).map(|x| x.to_string()));
+            let kind = get("backend=").and_then(|k| backend::Kind::parse(&k)).unwrap_or(backend::Kind::Local);
+            let nh: usize = get("handles=").and_then(|x| x.parse().ok()).unwrap_or(1);
+            if crash != lines.iter().any(|l| l.starts_with("FP ") || l.starts_with("EP ")) && args.replay.is_none() {
+                continue;
+            }
+            cases.push((format!("# case corpus:{}#{} backend={} handles={}", name, ci, kind.name(), nh), kind, nh, Some(lines), Rng::new(0), 0));
+        }
+    }
+    if args.replay.is_none() {
+        for i in 0..args.cases {
+            let mut crng = rng.fork();
+            let kind = kinds[i % kinds.len()];
+            // git is slow (every call forks git several times): shorter cases
+            let len = match kind {
+                backend::Kind::GitLocal | backend::Kind::GitRemote => 4 + crng.below(args.max_len as u64 / 4 + 1) as usize,
+                _ => 5 + crng.below(args.max_len as u64) as usize,
+            };
+            let nh = 1 + crng.below(3) as usize;
+            cases.push((format!("# case {} seed={} backend={} handles={}", i, args.seed, kind.name(), nh), kind, nh, None, crng, len));
+        }
+    }
+    for (i, (hdr, kind, nh, fixed, crng, len)) in cases.into_iter().enumerate() {
+        let mut crng = crng;
         writeln!(ops, "{}", hdr).unwrap();
         writeln!(imp, "{}", hdr).unwrap();
         let r = std::panic::catch_unwind(std::panic::AssertUnwindSafe(|| {
@@ -302,10 +334,43 @@ fn run_backend(args: &Args) {
             run.sealed_check = sealed_check && (i < kinds_len || i % 4 == 0);
             let mut lines = vec![(format!("BACKEND {}", kind.name()), String::new(), Vec::new())];
             let mut nver = 0;
-            for _ in 0..len {
-                let l = backend::gen_line(&mut run, &mut crng, nh, &mut nver);
-                let (nl, o) = run.exec(&l);
-                lines.push((nl, o, std::mem::take(&mut run.extra_ops)));
+            let specs = backend::fault_specs(kind);
+            if let Some(fixed) = &fixed {
+                for l in fixed.iter().filter(|l| !l.starts_with("BACKEND") && !l.starts_with("KEY") && !l.starts_with("OPEN")) {
+                    // results recorded in a replayed line are recomputed
+                    let l = l.split(" !").next().unwrap().to_string();
+                    let l = if l.starts_with("EP ") { l.split(" -> ").next().unwrap().to_string() } else { l };
+                    let l = if l.starts_with("GS ") { l.split(" -> ").next().unwrap().to_string() } else { l };
+                    let (nl, o) = run.exec(&l);
+                    lines.push((nl, o, std::mem::take(&mut run.extra_ops)));
+                }
+            } else if crash && (i / kinds_len) % 2 == 1 {
+                // replica-level rounds: whole replicas synchronize through the backend while it is interrupted
+                for k in 0..(3 + crng.below(5)) {
+                    let r = crng.below(2);
+                    let spec = if crng.below(4) == 0 { "none".to_string() } else { crng.pick(&specs[..]).clone() };
+                    let (nl, o) = run.exec(&format!("EP {} {} {}", r, spec, k));
+                    lines.push((nl, o, Vec::new()));
+                }
+                let (nl, o) = run.exec("EPEND");
+                lines.push((nl, o, Vec::new()));
+            } else {
+                for _ in 0..len {
+                    let mut l = backend::gen_line(&mut run, &mut crng, nh, &mut nver);
+                    if crash && (l.starts_with("AV") || l.starts_with("AS")) && crng.below(2) == 0 {
+                        let h: usize = l.split(' ').nth(1).unwrap().parse().unwrap();
+                        // mostly interrupt a request that would be accepted
+                        if l.starts_with("AV") && crng.below(3) > 0 {
+                            let latest = if run.accepted.is_empty() { "nil".to_string() } else { format!("v{}", run.accepted.len()) };
+                            let b = l.split(' ').nth(3).unwrap().to_string();
+                            l = format!("AV {} {} {}", h, latest, b);
+                        }
+                        let (nl, o) = run.exec(&format!("FP {} {}", h, crng.pick(&specs[..])));
+                        lines.push((nl, o, Vec::new()));
+                    }
+                    let (nl, o) = run.exec(&l);
+                    lines.push((nl, o, std::mem::take(&mut run.extra_ops)));
+                }
             }
             (lines, run.stats.clone())
         }));
